@@ -30,6 +30,7 @@
 import ChessVerif.Proofs.SeeLoop
 import ChessVerif.Proofs.SeeLegal
 import ChessVerif.Proofs.SeeGeom
+import ChessVerif.Proofs.SeeFuel
 
 namespace ChessVerif.Props.C18
 open ChessVerif ChessVerif.Proofs.SeeAbstract ChessVerif.Proofs.SeeLoop ChessVerif.Proofs.SeeLegal
@@ -95,6 +96,13 @@ theorem see_monotone_valid {b : Board} {m : Move} {thr thr' : Int} (hv : Board.v
     (hl : Rules.legal b.abs (decodeMove m) = true) (ht : ThrDom thr) (ht' : ThrDom thr') (hle : thr' ≤ thr)
     (h : See.see b m thr = true) : See.see b m thr' = true :=
   see_monotone b m (legal_promo_ne7 hl) ht ht' hle h
+
+/-- Model faithfulness: the Go loop is unbounded, the model's has fuel `See.fuel = 65`.  On a
+    well-formed board the fuel is never exhausted — any larger fuel gives the same loop answer. -/
+theorem see_fuel_suffices {b : Board} (hwf : b.wf = true) (m : Move) (k : Nat) (swap : Int) (res : Bool) :
+    See.loop b (Move.dst m) (See.fuel + k) (See.geo0 b m) swap res =
+      See.loop b (Move.dst m) See.fuel (See.geo0 b m) swap res :=
+  Proofs.SeeFuel.loop_fuel hwf m k swap res
 
 /-! ### Non-vacuity -/
 
